@@ -42,7 +42,7 @@ impl UnixCmsg {
     #[verifier::external_body]
     pub fn new(iovec: &mut IoVec2) -> (r: Result<UnixCmsg, UnixError>)
         ensures r matches Ok(c) ==> c.got is None && c.iov == *old(iovec), *final(iovec) == *old(iovec),
-            r matches Err(e) ==> e is Errno   // malloc failed: UnixError::last()
+            r matches Err(e) ==> e == UnixError::Errno(libc::ENOMEM)   // malloc failed: UnixError::last()
     { unimplemented!() }
 
     #[verifier::external_body]
@@ -67,6 +67,10 @@ impl UnixCmsg {
                 &&& p.data.len() > old(buf)@.len() ==> n == 8 + old(buf)@.len()
             },
             r is Err ==> final(k).q == old(k).q && final(self).got is None,
+            r is Ok ==> final(k).errno == old(k).errno,
+            r matches Err(UnixError::Errno(c)) ==> final(k).errno == c,
+            // kernel: "would block" iff nothing is queued on the socket
+            r matches Err(UnixError::Errno(c)) ==> (c == libc::EAGAIN ==> old(k).q[fd].len() == 0),
             // zero-length read: no packet queued (and, kernel: no sender left)
             r matches Err(UnixError::ChannelClosed) ==> old(k).q[fd].len() == 0,
     { unimplemented!() }
@@ -115,6 +119,9 @@ pub fn k_recv(Tracked(k): Tracked<&mut K>, fd: c_int, buf: &mut Vec<u8>, write_p
         },
         r == 0 ==> old(k).q[fd].len() == 0 && final(k).q == old(k).q,
         r < 0 ==> final(k).q == old(k).q,
+        // a zero-length read does NOT set errno (it stays whatever an earlier call left); a failing BLOCKING read never says "would block"
+        r >= 0 ==> final(k).errno == old(k).errno,
+        r < 0 ==> final(k).errno != libc::EAGAIN && final(k).errno != libc::EWOULDBLOCK,
 { unimplemented!() }
 
 // order-preserving split of the received descriptors
@@ -198,4 +205,10 @@ pub proof fn lemma_followups_drop_first(q: Seq<Packet>)
         && 0 < q.drop_first()[i].data.len() <= spec_frag(sys_sendbuf()) by {
         assert(q.drop_first()[i] == q[i + 1]);
     }
+}
+
+impl UnixError {
+    // UnixError::last(): io::Error::last_os_error() - whatever errno holds NOW
+    #[verifier::external_body]
+    pub fn last_with(Tracked(k): Tracked<&K>) -> (r: UnixError) ensures r == UnixError::Errno(k.errno) { unimplemented!() }
 }
